@@ -632,4 +632,27 @@ theorem renderSeq_spec (fmt : R → List UInt8) (pr : List UInt8 → Option R) (
           simpa using this
     exact key _ _ hgap.1 hbnd (render_spells fmt pr x h.1 _)
 
+
+/-- side conditions of the indirect *stream* object theorem, as a property of a text -/
+def IndirectStreamOK (pr : List UInt8 → Option R) (id gen : Nat) (info : Dict R) (data tail txt : List UInt8) : Prop :=
+  ∃ a g1 b g2 g3 tv g4 g5, txt = [] ++ a ++ g1 ++ b ++ g2 ++ kwObj ++ g3 ++ tv ++ g4 ++ kwEndobj ++ (g5 ++ tail) ∧
+    NatTok a id ∧ NatTok b gen ∧ Gap g1 ∧ g1 ≠ [] ∧ Gap g2 ∧ g2 ≠ [] ∧ Gap g3 ∧ PdfSyntax.SpellsStream pr info data tv ∧
+    Gap g4 ∧ g4 ≠ [] ∧ Gap g5 ∧ Bnd (g5 ++ tail)
+
+theorem indirectStreamOK_mk (pr : List UInt8 → Option R) (id gen : Nat) (info : Dict R) (data tail a g1 b g2 g3 tv g4 g5 : List UInt8)
+    (h1 : NatTok a id) (h2 : NatTok b gen) (h3 : Gap g1) (h4 : g1 ≠ []) (h5 : Gap g2) (h6 : g2 ≠ []) (h7 : Gap g3)
+    (h8 : PdfSyntax.SpellsStream pr info data tv) (h9 : Gap g4) (h10 : g4 ≠ []) (h11 : Gap g5) (h13 : Bnd (g5 ++ tail)) :
+    IndirectStreamOK pr id gen info data tail (a ++ g1 ++ b ++ g2 ++ kwObj ++ g3 ++ tv ++ g4 ++ kwEndobj ++ g5 ++ tail) :=
+  ⟨a, g1, b, g2, g3, tv, g4, g5, by simp, h1, h2, h3, h4, h5, h6, h7, h8, h9, h10, h11, h13⟩
+
+theorem renderIndirect_stream_spec (fmt : R → List UInt8) (pr : List UInt8 → Option R) (id gen : Nat) (info : Dict R)
+    (data tail : List UInt8) (h : RenderableE fmt pr info) (t : Tape) :
+    IndirectStreamOK pr id gen info data tail (renderIndirect fmt id gen (.stream info (.pending data)) tail t).1 := by
+  simp only [renderIndirect]
+  apply indirectStreamOK_mk pr id gen info data tail _ _ _ _ _ _ _ _ (natTok_spec' _ _) (natTok_spec' _ _)
+    (gap_spec true _).1 ((gap_spec true _).2 rfl) (gap_spec true _).1 ((gap_spec true _).2 rfl) (gap_spec _ _).1
+    (render_stream_spells fmt pr info data h _) (gap_spec _ _).1 ((gap_spec _ _).2 (by simp [needsBnd, PdfSyntax.needsBnd]))
+    (gap_spec _ t).1 ?_
+  apply gap_bnd_must; intro hm; simpa using hm
+
 end PdfSpec
